@@ -55,6 +55,7 @@ def check_values(ctx, component, items):
         todo.append((ln, ok_calls, t[2]))
     dec = binlib.sdecode_many([h for _, _, h in todo])
     n = 0
+    n_table = 0
     for (ln, ok_calls, h), d in zip(todo, dec):
         n += 1
         if oracle_silent(ctx, component, ln, d):
@@ -67,6 +68,9 @@ def check_values(ctx, component, items):
         if batches and batches[-1] is None:
             ctx.fail("property", component, ln, "final Finish returned nil with values left unflushed")
             continue
+        if iongen.writes_top_level_table(batches):
+            n_table += 1          # the calls spell a local symbol table at the top level: not a user value (see iongen)
+            continue
         exp = " ".join(x for x in (iongen.show_forest(b) for b in batches) if x)
         if d is None:
             if h == "x" and exp == "":
@@ -74,7 +78,7 @@ def check_values(ctx, component, items):
             ctx.fail("property", component, ln, "final Finish returned nil but the bytes are not valid Ion: " + h[:160], classify_case(ln))
         elif d != exp:
             ctx.fail("property", component, ln, "bytes decode to '%s' but the successful calls denote '%s'" % (d[:200], exp[:200]), classify_case(ln))
-    ctx.count(component + "-values", n, [])
+    ctx.count(component + "-values", n, [], skipped_top_level_symbol_table=n_table)
 
 
 def classify_case(line):
